@@ -17,11 +17,28 @@ type GenCfg struct {
 	// which call kinds may be generated
 	NoCompact, NoRemoveNode, NoImport, NoQuery, NoReopen, NoBootstrap, NoRemoveEntries bool
 	BigCmd                                                                             bool // allow multi-KB commands
+	HugeCmd                                                                            bool // allow (rare) commands above 32 KiB
+	// NoCommitOnly: a hard-state update without entries/snapshot never changes
+	// the commit index alone (tan writes such records without fsync, which is
+	// the trigger of known finding S9)
+	NoCommitOnly bool
+	// Weights overrides the default weight of call kinds
+	Weights map[OpKind]int
 	// AllowS2 / AllowS3 decide whether a call of the known-finding shape may be
 	// generated this time (nil: never). Count is told about exclusions.
 	AllowS2 func(t *rapid.T) bool
 	AllowS3 func(t *rapid.T) bool
 	Count   func(label string)
+}
+
+func (c *GenCfg) cmdLevel() int {
+	switch {
+	case c.HugeCmd:
+		return 2
+	case c.BigCmd:
+		return 1
+	}
+	return 0
 }
 
 func (c *GenCfg) count(label string) {
@@ -76,7 +93,9 @@ func GenModel(t *rapid.T, tr Traits) *Model {
 	return m
 }
 
-func genEntries(start uint64, n int, term uint64, bumpAt int, seed uint64, big bool) []pb.Entry {
+// cmdLevel: 0 commands up to 600 bytes, 1 also 2-5 KB, 2 also (rarely) 33-45 KB,
+// larger than tan's 32 KiB record block.
+func genEntries(start uint64, n int, term uint64, bumpAt int, seed uint64, cmdLevel int) []pb.Entry {
 	ents := make([]pb.Entry, 0, n)
 	for i := 0; i < n; i++ {
 		idx := start + uint64(i)
@@ -104,8 +123,10 @@ func genEntries(start uint64, n int, term uint64, bumpAt int, seed uint64, big b
 			l = 0
 		case c < 26:
 			l = 1 + int((h>>12)%24)
-		case c < 31 || !big:
+		case c < 31 || cmdLevel == 0:
 			l = 100 + int((h>>12)%500)
+		case cmdLevel >= 2 && (h>>9)%8 == 0:
+			l = 33000 + int((h>>12)%12000)
 		default:
 			l = 2000 + int((h>>12)%3000)
 		}
@@ -255,7 +276,7 @@ func genUpdate(t *rapid.T, m *Model, r *Rep, tr Traits, cfg *GenCfg, labels *[]s
 			bump = rapid.IntRange(0, n-1).Draw(t, "bumpat")
 			stateTerm = term + 1
 		}
-		u.EntriesToSave = genEntries(start, n, term, bump, seed, cfg.BigCmd)
+		u.EntriesToSave = genEntries(start, n, term, bump, seed, cfg.cmdLevel())
 		lastAfter = start + uint64(n) - 1
 		*labels = append(*labels, "append")
 	case "overwrite":
@@ -288,7 +309,7 @@ func genUpdate(t *rapid.T, m *Model, r *Rep, tr Traits, cfg *GenCfg, labels *[]s
 		}
 		term++
 		stateTerm = term
-		u.EntriesToSave = genEntries(f, n, term, -1, seed, cfg.BigCmd)
+		u.EntriesToSave = genEntries(f, n, term, -1, seed, cfg.cmdLevel())
 		lastAfter = f + uint64(n) - 1
 		*labels = append(*labels, "overwrite")
 		if f/bs != r.Last/bs {
@@ -330,7 +351,7 @@ func genUpdate(t *rapid.T, m *Model, r *Rep, tr Traits, cfg *GenCfg, labels *[]s
 		}
 		if withEntries {
 			n := genCount(t, si+1, bs, budget)
-			u.EntriesToSave = genEntries(si+1, n, sterm, -1, seed, cfg.BigCmd)
+			u.EntriesToSave = genEntries(si+1, n, sterm, -1, seed, cfg.cmdLevel())
 			lastAfter = si + uint64(n)
 			*labels = append(*labels, "restore-snap-with-entries")
 		}
@@ -363,6 +384,10 @@ func genUpdate(t *rapid.T, m *Model, r *Rep, tr Traits, cfg *GenCfg, labels *[]s
 		if kind == "overwrite" && st.Commit < r.Commit() {
 			st.Commit = r.Commit()
 		}
+		if cfg.NoCommitOnly && r.HasState && len(u.EntriesToSave) == 0 && u.Snapshot.Index == 0 &&
+			st.Term == r.State.Term && st.Vote == r.State.Vote && st.Commit != r.State.Commit {
+			st.Term++
+		}
 		u.State = st
 	}
 	return u
@@ -385,6 +410,23 @@ var opKindTable = func() []OpKind {
 	}
 	return out
 }()
+
+func (c *GenCfg) table() []OpKind {
+	if len(c.Weights) == 0 {
+		return opKindTable
+	}
+	var out []OpKind
+	for _, w := range opWeights {
+		n := w.w
+		if v, ok := c.Weights[w.k]; ok {
+			n = v
+		}
+		for i := 0; i < n; i++ {
+			out = append(out, w.k)
+		}
+	}
+	return out
+}
 
 func (c *GenCfg) allowed(k OpKind) bool {
 	switch k {
@@ -481,8 +523,9 @@ func GenQuery(t *rapid.T, m *Model, tr Traits, idx int) Op {
 // GenOp draws the next store call given the current model.
 func GenOp(t *rapid.T, m *Model, tr Traits, cfg *GenCfg) Op {
 	live := m.live()
+	table := cfg.table()
 	for attempt := 0; attempt < 8; attempt++ {
-		k := rapid.SampledFrom(opKindTable).Draw(t, "op")
+		k := rapid.SampledFrom(table).Draw(t, "op")
 		if !cfg.allowed(k) {
 			continue
 		}
